@@ -156,7 +156,9 @@ class Recorder:
             self.ev("dat", stream, dig, self.devmask(doc.get("data", {})), doc["seq_num"], ro)
         elif name == "stop":
             ro = self.run_ord.get(doc["run_start"], 0)
-            self.ev("doc", "stop", "", doc.get("exit_status", ""), 0, ro, flag)
+            # reason class: "" none | "req" the reason the harness hands to RE.abort() | "exc" any other text
+            rs = doc.get("reason") or ""
+            self.ev("doc", "stop", "" if not rs else "req" if rs == ABORT_REASON else "exc", doc.get("exit_status", ""), 0, ro, flag)
             for stream, n in sorted((doc.get("num_events") or {}).items()):
                 self.ev("nev", stream, "", "", n, ro)
         elif name == "event_page":
@@ -188,8 +190,15 @@ class Recorder:
     def wrap_plan(self, gen, describe=None, log_cmd=False):
         """transparent logging wrapper around the main plan generator: logs what every resume delivered and how the
         plan reacted.  `describe(value)` abstracts a sent value."""
-        describe = describe or describe_value
+        describe0 = describe or describe_value
         rec = self
+
+        def describe(v):
+            d = describe0(v)
+            # a string that is the uid of a document that is not a RunStart (open_run / close_run answer with the run's uid)
+            if d == "str" and v in rec._uids and v not in rec.run_ord:
+                return "str:uid-of-another-document"
+            return d
 
         def wrapped():
             inp, val = "send", "None"
@@ -263,6 +272,7 @@ DEV_ORDER = ["det", "det2", "mon1", "motor", "motor2", "pdet", "amotor", "apdet"
 DEV_KEYS = {"det": {"det"}, "det2": {"det2"}, "mon1": {"mon1"}, "motor": {"motor", "motor_setpoint"},
             "motor2": {"motor2", "motor2_setpoint"}, "pdet": {"pdet"}, "amotor": {"amotor", "amotor_setpoint"}, "apdet": {"apdet"}, "fly1": {"fly1_x"}, "fly2": {"fly2_x"}}
 GROUP_CMDS = ("set", "trigger", "stage", "unstage", "kickoff", "complete", "prepare", "wait")
+ABORT_REASON = "verif: the operator asked for an abort"      # what the harness passes to RE.abort(reason)
 SUS_NAMES = {}     # id(suspender object) -> name, registered by the scenario runner
 FUT_NAMES = {}     # id(awaitable factory) -> name, registered by the scenario runner
 
